@@ -90,19 +90,30 @@ def _tolerated(sig):
 # --------------------------------------------------------------------------------------------------
 # cell specs (plain data):  {'b': '0101', 'r': [spec, ...]}  or  {'chain': d}  (d cells below, one reference each)
 
+def _pruned_bits(d):
+    """pruned branch, level mask 1: type 0x01, mask 0x01, a 256-bit hash, the depth of the pruned sub-tree (16 bits)"""
+    return R.uint(1, 8) + R.uint(1, 8) + R.uint(0x5A5A5A5A00000000 + d, 64) + '01' * 96 + R.uint(d, 16)
+
+
 def spec_bits(spec):
     if 'chain' in spec:
         return R.uint(spec['chain'] % 256, 8)
+    if 'pruned' in spec:
+        return _pruned_bits(spec['pruned'])
     return spec['b']
 
 
 def spec_children(spec):
+    if 'pruned' in spec:
+        return []
     if 'chain' in spec:
         return [{'chain': spec['chain'] - 1}] if spec['chain'] > 0 else []
     return spec['r']
 
 
 def spec_depth(spec):
+    if 'pruned' in spec:
+        return spec['pruned']        # an exotic child: its level-0 depth is the depth it stores, no chain has to exist
     if 'chain' in spec:
         return spec['chain']
     return 1 + max(spec_depth(r) for r in spec['r']) if spec['r'] else 0
@@ -124,6 +135,8 @@ def _build(ctx, spec):
     from pytoniq_core.boc.builder import Builder
     if 'chain' in spec:
         return _chain(ctx, spec['chain'])
+    if 'pruned' in spec:
+        return Builder(type_=1).store_bits(_pruned_bits(spec['pruned'])).end_cell()
     b = Builder().store_bits(spec['b'])
     for r in spec['r']:
         b.store_ref(_build(ctx, r))
@@ -136,6 +149,10 @@ def _walk_depth(cell, memo):
     while stack:
         c = stack[-1]
         if id(c) in memo:
+            stack.pop()
+            continue
+        if getattr(c, 'type_', -1) == 1:                # pruned branch: the depth it stores
+            memo[id(c)] = (c, int(c.bits.to01()[-16:], 2))
             stack.pop()
             continue
         pend = [r for r in c.refs if id(r) not in memo]
@@ -594,7 +611,7 @@ def _cellspec(draw, nbits, nrefs, deep_ok=True):
     kids = []
     for j in range(nrefs):
         if deep_ok and draw(st.integers(0, 11)) == 0:
-            kids.append({'chain': draw(st.sampled_from([1, 1021, 1022]))})
+            kids.append(draw(st.sampled_from([{'chain': 1}, {'chain': 1021}, {'chain': 1022}, {'pruned': 1021}, {'pruned': 1022}])))
         else:
             kids.append(draw(_leaf))
     return {'b': draw(_bits01(nbits)), 'r': kids}
@@ -693,9 +710,13 @@ def _draw_op(draw, kind, left, rleft):
             return {'op': 'addr_ext', 'len': draw(st.sampled_from([512, 513, 1000])), 'v': 1}
         return {'op': 'addr_ext', 'len': n, 'v': draw(st.integers(0, (1 << n) - 1)) if n else 0}
     if kind in ('ref', 'maybe_ref', 'dict'):
-        r = draw(st.integers(0, 9))
+        r = draw(st.integers(0, 11))
         if kind != 'ref' and r <= 2:
             c = None
+        elif r == 11:
+            c = {'pruned': 1023}                # exotic child whose level-0 depth is 1023: the parent would have depth 1024
+        elif r == 10:
+            c = {'pruned': draw(st.sampled_from([0, 7, 1022]))}
         elif r == 9:
             c = {'chain': 1023}
         elif r == 8:
